@@ -92,6 +92,71 @@ pub fn run() {
                 Ok(()) => "ok".into(),
                 Err(_) => "err".into(),
             },
+            ["contend", lport, rounds, readers] => {
+                // C09 in the running kernel: the three redirect policies are switched through the agent's own update_*_redirect_policy
+                // (shared redirector state, the object behind its mutex) while proxy connections look their callers up in the audit map
+                // (redirector::lookup_audit, the same mutex); after every switch the kernel policy map must say what was asked for
+                use std::sync::atomic::{AtomicBool, AtomicU64, Ordering};
+                use std::sync::{Arc, Mutex};
+                let lport: u16 = lport.parse().unwrap();
+                let rounds: u32 = rounds.parse().unwrap();
+                let readers: u32 = readers.parse().unwrap();
+                let obj = Arc::new(Mutex::new(bpf.take().unwrap()));
+                let rt = tokio::runtime::Builder::new_multi_thread().enable_all().worker_threads(4).build().unwrap();
+                let obj2 = obj.clone();
+                let res = rt.block_on(async move {
+                    let rs = crate::shared_state::redirector_wrapper::RedirectorSharedState::start_new();
+                    let _ = rs.update_bpf_object(obj2.clone()).await;
+                    let _ = rs.set_local_port(lport).await;
+                    let stop = Arc::new(AtomicBool::new(false));
+                    let lookups = Arc::new(AtomicU64::new(0));
+                    let mut hs = vec![];
+                    for i in 0..readers {
+                        let (rs, stop, lookups) = (rs.clone(), stop.clone(), lookups.clone());
+                        hs.push(tokio::spawn(async move {
+                            let mut port = 20000u16 + i as u16;
+                            while !stop.load(Ordering::Relaxed) {
+                                let _ = crate::redirector::lookup_audit(port, &rs).await;
+                                port = 20000 + (port.wrapping_add(7) % 20000);
+                                lookups.fetch_add(1, Ordering::Relaxed);
+                            }
+                        }));
+                    }
+                    let mut wrong: Vec<String> = vec![];
+                    for n in 0..rounds {
+                        let on = n % 2 == 0;
+                        match n % 3 {
+                            0 => crate::redirector::update_wire_server_redirect_policy(on, rs.clone()).await,
+                            1 => crate::redirector::update_imds_redirect_policy(on, rs.clone()).await,
+                            _ => crate::redirector::update_hostga_redirect_policy(on, rs.clone()).await,
+                        }
+                        let (ip, port) = match n % 3 {
+                            0 => (crate::common::constants::WIRE_SERVER_IP_NETWORK_BYTE_ORDER, crate::common::constants::WIRE_SERVER_PORT),
+                            1 => (crate::common::constants::IMDS_IP_NETWORK_BYTE_ORDER, crate::common::constants::IMDS_PORT),
+                            _ => (crate::common::constants::GA_PLUGIN_IP_NETWORK_BYTE_ORDER, crate::common::constants::GA_PLUGIN_PORT),
+                        };
+                        let dump = dump_map::<6, 6>(&obj2.lock().unwrap(), "policy_map");
+                        let present = dump.contains(&format!("[{},0,0,0,{},", ip, (port as u16).to_be() as u32));
+                        if present != on && wrong.len() < 4 {
+                            wrong.push(format!("{}:{}:{}", n, ["wireserver", "imds", "hostga"][(n % 3) as usize], if on { "on" } else { "off" }));
+                        }
+                    }
+                    stop.store(true, Ordering::Relaxed);
+                    for h in hs {
+                        let _ = h.await;
+                    }
+                    let _ = rs.clear_bpf_object().await;
+                    format!("lookups={} wrong={}", lookups.load(Ordering::Relaxed), if wrong.is_empty() { "-".to_string() } else { wrong.join(",") })
+                });
+                drop(rt);
+                match Arc::try_unwrap(obj) {
+                    Ok(m) => {
+                        bpf = Some(m.into_inner().unwrap_or_else(|e| e.into_inner()));
+                        res
+                    }
+                    Err(_) => "err object-still-shared".into(),
+                }
+            }
             ["dump"] => {
                 let b = bpf.as_ref().unwrap();
                 format!("{} | {} | {} | {}", dump_map::<6, 6>(b, "policy_map"), dump_map::<1, 1>(b, "skip_process_map"), dump_map::<2, 5>(b, "audit_map"),
